@@ -310,7 +310,7 @@ fn run(a: &vhcore::Args) -> i32 {
         .enumerate()
         .map(|(i, s)| request(i as u64, &format!("c13_p{i}"), s, vec![spec("F", release, false, true, false)]))
         .collect();
-    let mut pool = Pool::new(a.jobs, vhcore::work_dir("C13"));
+    let mut pool = Pool::new(a.jobs, vhcore::work_dir("C13/pool"));
     pool.recycle_after = 300;
 
     let sc_idx: Vec<usize> = {
@@ -456,7 +456,7 @@ fn replay(a: &vhcore::Args) -> i32 {
     let seq: Vec<(usize, bool)> = serde_json::from_value(r["seq"].clone()).unwrap_or_default();
     let confs = configurables(&seq);
     let src = r["src"].as_str().unwrap_or("");
-    let b = build_in_process("C13replay", r["name"].as_str().unwrap_or("replay_pkg"), src, spec("replay", r["release"].as_bool().unwrap_or(false), false, true, true));
+    let b = build_in_process("C13/replay", r["name"].as_str().unwrap_or("replay_pkg"), src, spec("replay", r["release"].as_bool().unwrap_or(false), false, true, true));
     if !b.ok {
         println!("replay: build fails: {}", build_failure_text(&b));
         return 1;
@@ -484,7 +484,7 @@ fn main() {
     let code = match a.cmd.as_str() {
         "check" => run(&a),
         "replay" => replay(&a),
-        "try" => try_file("C13try", &a.rest[0], a.rest.get(1).map(|s| s == "release").unwrap_or(false)),
+        "try" => try_file("C13/try", &a.rest[0], a.rest.get(1).map(|s| s == "release").unwrap_or(false)),
         "gen" => {
             // gen t,l t,l …   (type index, live 0|1)
             let seq: Vec<(usize, bool)> = a.rest.iter().map(|x| {
@@ -504,7 +504,7 @@ fn main() {
                 decls.values().cloned().collect::<Vec<_>>().join("\n"), e.sway(), e.sway()
             );
             println!("{src}");
-            let b = build_in_process("C13probe", "c13_probe", &src, spec("probe", false, false, true, true));
+            let b = build_in_process("C13/probe", "c13_probe", &src, spec("probe", false, false, true, true));
             let offs = abi_offsets(&b.abi_json).unwrap();
             println!("ok={} offsets={offs:?} len={}", b.ok, b.bytecode_len);
             let code = hex::decode(&b.bytecode_hex).unwrap();
@@ -520,12 +520,17 @@ fn main() {
         }
         "bench" => {
             let seqs = sequences(2);
-            let mut w = vh_comp::worker::Worker::new(vhcore::work_dir("C13bench"));
-            for (n, i) in [0usize, 5, 50, 100, 150, 200, 250, 300, 350, 400, 420].iter().enumerate() {
-                let src = source(&configurables(&seqs[*i]));
-                let t = std::time::Instant::now();
+            let mut w = vh_comp::worker::Worker::new(vhcore::work_dir("C13/bench"));
+            let mut acc = 0u64;
+            for n in 0..400usize {
+                let i = (n * 7) % seqs.len();
+                let src = source(&configurables(&seqs[i]));
                 let r = w.handle(&request(n as u64, &format!("c13_b{n}"), &src, vec![spec("F", false, false, true, false)]));
-                println!("{i}: ok={} worker-ms={} wall={:?}", r.builds[0].ok, r.builds[0].millis, t.elapsed());
+                acc += r.builds[0].millis;
+                if n % 25 == 0 {
+                    println!("{n}: ok={} this={}ms sum-of-last-25={}ms", r.builds[0].ok, r.builds[0].millis, acc);
+                    acc = 0;
+                }
             }
             0
         }
@@ -538,7 +543,7 @@ fn main() {
             let confs = configurables(&seq);
             let src = source(&confs);
             println!("{src}");
-            let b = build_in_process("C13one", "c13_one", &src, spec("one", false, false, true, true));
+            let b = build_in_process("C13/one", "c13_one", &src, spec("one", false, false, true, true));
             println!("ok={} {} abi offsets={:?} len={}", b.ok, if b.ok { String::new() } else { build_failure_text(&b) }, abi_offsets(&b.abi_json), b.bytecode_len);
             let mut st = EvalStats { runs: 0, outcomes: Default::default(), offsets: Default::default() };
             let fs = evaluate(&confs, &b, &mut st, None);
